@@ -9,6 +9,7 @@ import (
 	ysgo "github.com/remieven/ysgo"
 	"github.com/remieven/ysgo/internal/tree"
 	"github.com/remieven/ysgo/markup"
+	"github.com/remieven/ysgo/variable"
 )
 
 // Property C14: the result of parsing a line depends only on that line.
@@ -122,6 +123,10 @@ type mkScenario struct {
 	// texts of the options (marked-up lines of the pool; nil: plain `choice<i>`): all options of a
 	// group are parsed in a row by the runner's parser before the host sees any of them
 	optTexts []string
+	// the lines of `pre` begin with the inline expression {$v}; the host writes $v into its storer
+	// before every pass through the loop: the same line statement is shown with another text, and is
+	// parsed as that text
+	hostVar bool
 	// every line is preceded by a line whose inline expression fails to evaluate after some
 	// text and markup have been assembled: the runner reports the error and moves on, and
 	// the line shown next must still be parsed as if nothing had happened
@@ -158,6 +163,9 @@ func (s mkScenario) script() string {
 	for _, l := range s.pre {
 		if s.poison {
 			b.WriteString(mkPoisonLine + "\n")
+		}
+		if s.hostVar {
+			b.WriteString("{$v}")
 		}
 		b.WriteString(l + "\n")
 	}
@@ -202,10 +210,10 @@ func mkLineText(st *tree.Statement) (string, bool) {
 // frontEndKeeps checks that the Yarn front end hands every line of the scenario to the
 // markup parser unchanged (otherwise the scenario is not judged).
 func (s mkScenario) frontEndKeeps(script string) (ok bool) {
-	if s.poison {
-		// the lines themselves are those of the scenario without the failing lines
+	if s.poison || s.hostVar {
+		// the lines themselves are those of the scenario without the failing lines / the {$v} prefix
 		plain := s
-		plain.poison = false
+		plain.poison, plain.hostVar = false, false
 		return plain.frontEndKeeps(plain.script())
 	}
 	guarded(func() {
@@ -252,8 +260,17 @@ func (s mkScenario) frontEndKeeps(script string) (ok bool) {
 // for every line reached, in order; ok=false if the dialogue did not follow the script.
 func (s mkScenario) run(script string, choices []int) (lines []string, res []mkRes, ok bool) {
 	var runner *ysgo.DialogueRunner
+	storer := variable.NewInMemoryStorer()
+	hostVals := []string{"", "ab ", "Q: "}
 	if !guarded(func() {
-		r, err := ysgo.NewDialogueRunner(nil, "verif", strings.NewReader(script))
+		var r *ysgo.DialogueRunner
+		var err error
+		if s.hostVar {
+			storer.SetStringValue("v", hostVals[0])
+			r, err = ysgo.NewDialogueRunner(storer, "verif", strings.NewReader(script))
+		} else {
+			r, err = ysgo.NewDialogueRunner(nil, "verif", strings.NewReader(script))
+		}
 		if err == nil {
 			runner = r
 		}
@@ -298,9 +315,14 @@ func (s mkScenario) run(script string, choices []int) (lines []string, res []mkR
 		lines, res = append(lines, l), append(res, r)
 		return true
 	}
-	for _, c := range choices {
+	for pass, c := range choices {
+		v := ""
+		if s.hostVar {
+			v = hostVals[pass%len(hostVals)]
+			storer.SetStringValue("v", v) // the host writes between two calls
+		}
 		for _, l := range s.pre {
-			if !expectLine(l) {
+			if !expectLine(v + l) {
 				return nil, nil, false
 			}
 		}
@@ -406,7 +428,7 @@ func markupHistory(m map[string]string) error {
 			bodies[i] = cpsAll(sc.bodies[i])
 		}
 		return map[string]any{"kind": "runner", "pre": cpsAll(sc.pre), "tail": cpsAll(sc.tail), "bodies": bodies, "choices": choices,
-			"poison": sc.poison, "opttexts": cpsAll(sc.optTexts)}
+			"poison": sc.poison, "opttexts": cpsAll(sc.optTexts), "hostvar": sc.hostVar}
 	}
 	h := 0
 	nDirect, nRunnerRuns, nRunnerSkipped, nFailing := 0, 0, 0, 0
@@ -462,6 +484,7 @@ func markupHistory(m map[string]string) error {
 				Choices []int     `json:"choices"`
 				Poison  bool      `json:"poison"`
 				OptText [][]int   `json:"opttexts"`
+				HostVar bool      `json:"hostvar"`
 			}
 			if err := json.Unmarshal(raw, &c); err != nil {
 				return err
@@ -477,7 +500,7 @@ func markupHistory(m map[string]string) error {
 				direct(strs(c.Lines))
 				continue
 			}
-			sc := mkScenario{pre: strs(c.Pre), tail: strs(c.Tail), poison: c.Poison}
+			sc := mkScenario{pre: strs(c.Pre), tail: strs(c.Tail), poison: c.Poison, hostVar: c.HostVar}
 			if len(c.OptText) > 0 {
 				sc.optTexts = strs(c.OptText)
 			}
@@ -526,8 +549,9 @@ func markupHistory(m map[string]string) error {
 				nRunnerSkipped++
 				continue
 			}
-			for ci, choices := range [][]int{{0, 1}, {1, 0}, {2, 2, 0}, {1, 0, 2}} {
+			for ci, choices := range [][]int{{0, 1}, {1, 0}, {2, 2, 0}, {1, 0, 2}, {2, 2, 2}} {
 				sc.poison = ci == 3 && skipsFailed
+				sc.hostVar = ci == 4
 				script := sc.script()
 				h++
 				cases = append(cases, runnerCase(sc, choices))
